@@ -14,6 +14,7 @@
 //   config  one (algorithm, modulator scaling, full-range brightness, model, melodic|percussion channel): sampled
 //           (velocity, CC7, CC11, master, brightness) points; from each point a full line along every axis incl. CC74.
 #include "vlib.hpp"
+#include "vsmf.hpp"
 
 static const char *harness_name() { return "c11_volume"; }
 static void harness_init() {}
@@ -505,8 +506,158 @@ static void stage_arp(Case &c)
     c.sample(vfmt("{\"stage\":\"arp\",\"model\":\"%s\",\"alg\":%d,\"audible_notes\":%d,\"silenced_notes\":%d,\"keyons\":%ld,\"keyons_of_silenced_notes\":%ld}", MODEL_NAME[model], alg, ny, nx, keyons, silenced_keyons));
 }
 
+// ------------------------------------------------------------------------------------------------------------
+// stage multidev: notes held on several MIDI devices of one song (tracks naming their device with FF 09), volume / expression
+// changes per device and master-volume SysEx messages arriving through the sequencer: the clauses hold for every sounding note,
+// whichever device it belongs to, and equal controls give equal levels on every device
+// ------------------------------------------------------------------------------------------------------------
+static std::vector<int> g_mv_seen;     // operation kinds handed over by the sequencer inside the current call
+static void mv_hook(void *, OPN2_UInt8 type, OPN2_UInt8, OPN2_UInt8, const OPN2_UInt8 *data, size_t len)
+{
+    if(type == 0x9) g_mv_seen.push_back(0);
+    else if(type == 0xB && len >= 1 && data[0] == 7) g_mv_seen.push_back(1);
+    else if(type == 0xB && len >= 1 && data[0] == 11) g_mv_seen.push_back(2);
+    else if(type == 0xF0 || type == 0xF7) g_mv_seen.push_back(3);
+}
+struct MvNote { int dev, ch, key, vel, cc7, cc11, cch; std::vector<int> st; std::vector<uint8_t> tl; };   // st: (cc7, cc11, master) per judged state
+static void stage_multidev(Case &c)
+{
+    Rng &rng = c.rng;
+    Rig r;
+    if(!r.open(c, rng.chance(0.5) ? 0 : 2)) return;
+    int rc = 0;
+    API("opn2_setNumChips", rc = opn2_setNumChips(r.dev, 2));
+    int model = 1 + (int)rng.below(5), alg = (int)rng.below(8);
+    uint8_t own[4]; gen_tl(rng, alg, own);
+    if(!put_ins(c, r, false, 0, alg, (int)rng.below(8), own)) return;
+    API("opn2_setVolumeRangeModel", opn2_setVolumeRangeModel(r.dev, model));
+    API("opn2_setScaleModulators", opn2_setScaleModulators(r.dev, 0));
+    g_master_lsb = rng.chance(0.4) ? 0 : (int)rng.pick((const int[]){0x40, 0x7F, 0x3F, 0x01, 0x55});
+    static const char *names[] = {"Port A", "Port B", "MPU-401", "x"};
+    const int ndev = rng.range(2, 3);
+    Song song; song.format = 1; song.division = 96; song.running_status = rng.chance(0.5);
+    song.tracks.resize((size_t)ndev + 1);
+    song.tracks[0].ev.push_back(mk_tempo(0, 500000));
+    std::vector<MvNote> notes((size_t)ndev);
+    struct Op { uint64_t tick; int kind, dev, a; };     // kind 0 note-on, 1 CC7, 2 CC11, 3 master volume
+    std::vector<Op> ops;
+    uint64_t tick = 0;
+    int nb = (int)rng.below(4);
+    const int vel = rng.range(1, 127);
+    const bool same_channel = rng.chance(0.5);
+    for(int d = 0; d < ndev; d++)
+    {
+        MvNote &n = notes[(size_t)d];
+        n.dev = d; n.ch = same_channel ? 3 : (int)rng.below(9); n.key = 48 + d * 5; n.vel = vel; n.cc7 = 100; n.cc11 = 127; n.cch = -1;
+        song.tracks[(size_t)d + 1].ev.push_back(mk_meta_text(0, 0x09, names[(nb + d) % 4]));
+        song.tracks[(size_t)d + 1].ev.push_back(mk_chan(0, 0xC0 | n.ch, 0));
+    }
+    for(int d = 0; d < ndev; d++)
+    {
+        MvNote &n = notes[(size_t)d];
+        if(rng.chance(0.7)) { n.cc7 = rng.range(0, 127); tick++; song.tracks[(size_t)d + 1].ev.push_back(mk_chan(tick, 0xB0 | n.ch, 7, n.cc7)); Op o = {tick, 1, d, n.cc7}; ops.push_back(o); }
+        tick++; song.tracks[(size_t)d + 1].ev.push_back(mk_chan(tick, 0x90 | n.ch, n.key, n.vel)); Op o = {tick, 0, d, 0}; ops.push_back(o);
+    }
+    static const int vals[] = {0, 0, 1, 32, 64, 100, 127, 127};
+    const int nops = rng.range(6, 20);
+    for(int i = 0; i < nops; i++)
+    {
+        Op o; o.tick = (tick += (uint64_t)rng.range(1, 4)); o.dev = (int)rng.below((uint32_t)ndev); o.a = rng.chance(0.7) ? rng.pick(vals) : rng.range(0, 127);
+        unsigned k = rng.below(10);
+        o.kind = k < 5 ? 3 : k < 8 ? 1 : 2;
+        const MvNote &n = notes[(size_t)o.dev];
+        if(o.kind == 3)
+        {
+            SEv e; e.tick = o.tick; e.status = 0xF0;
+            const uint8_t m[] = {0x7F, 0x7F, 0x04, 0x01, (uint8_t)(o.a == 0 ? 0 : g_master_lsb), (uint8_t)o.a, 0xF7};
+            e.data.assign(m, m + sizeof(m));
+            song.tracks[rng.chance(0.3) ? 0 : (size_t)o.dev + 1].ev.push_back(e);
+        }
+        else song.tracks[(size_t)o.dev + 1].ev.push_back(mk_chan(o.tick, 0xB0 | n.ch, o.kind == 1 ? 7 : 11, o.a));
+        ops.push_back(o);
+    }
+    tick += 2;
+    for(int t = 0; t <= ndev; t++) song.tracks[(size_t)t].ev.push_back(mk_meta(tick, 0x2F, std::vector<uint8_t>()));
+    std::vector<uint8_t> file = serialize_song(song);
+    { ExactBuf in(file); API("opn2_openData", rc = opn2_openData(r.dev, in.p, (unsigned long)in.n)); }
+    if(rc != 0) { c.violation("oracle:C11:wellformed-file-rejected", vfmt("generated multi-device SMF (%zu bytes) rejected: %s", file.size(), opn2_errorInfo(r.dev))); return; }
+    r.tap.log.clear();
+    API("opn2_setRawEventHook", opn2_setRawEventHook(r.dev, mv_hook, NULL));
+    Ctl k; memset(&k, 0, sizeof(k));
+    k.model = model; k.alg = alg; k.scaling = 0; k.fullrange = 0; k.bright = 127; k.cch = -1; memcpy(k.own, own, 4);
+    int master = -1;        // not known before the first master-volume message of the song
+    size_t next = 0; double delay = 0; long guard = 0; bool lost = false; long judged = 0;
+    while(guard++ < 2000 && next < ops.size() && !lost)
+    {
+        std::vector<uint32_t> before(r.tap.ch.size());
+        for(size_t i = 0; i < r.tap.ch.size(); i++) before[i] = r.tap.ch[i].n_keyon;
+        g_mv_seen.clear();
+        double nd = 0; API("opn2_tickEvents", nd = opn2_tickEvents(r.dev, delay, 1e-6));
+        delay = nd;
+        k.master = master < 0 ? 127 : master; k.vel = vel; k.cc7 = k.cc11 = 127; k.ch = -1;
+        after_call(c, r, k, "opn2_tickEvents");
+        if(g_mv_seen.empty()) { int end = 0; API("opn2_atEnd", end = opn2_atEnd(r.dev)); if(end) break; continue; }
+        if(g_mv_seen.size() > 1) { lost = true; break; }           // one operation per tick in the file: cannot attribute otherwise
+        const Op &o = ops[next];
+        if(g_mv_seen[0] != o.kind) { lost = true; break; }
+        next++;
+        MvNote &n = notes[(size_t)o.dev];
+        if(o.kind == 0)
+        {
+            int found = -1, cnt = 0;
+            for(size_t i = 0; i < r.tap.ch.size(); i++) if(r.tap.ch[i].n_keyon != (i < before.size() ? before[i] : 0)) { found = (int)i; cnt++; }
+            if(cnt != 1) { lost = true; break; }
+            n.cch = found;
+        }
+        else if(o.kind == 1) n.cc7 = o.a;
+        else if(o.kind == 2) n.cc11 = o.a;
+        else master = o.a;
+        // judge every sounding note of every device after this operation
+        for(size_t j = 0; j < notes.size(); j++)
+        {
+            MvNote &q = notes[j];
+            if(q.cch < 0) continue;
+            k.ch = q.ch; k.key = q.key; k.cch = q.cch; k.vel = q.vel; k.cc7 = q.cc7; k.cc11 = q.cc11; k.master = master < 0 ? 127 : master;
+            memcpy(k.tl, r.tap.ch[(size_t)q.cch].tl, 4);
+            judge_state(c, k, vfmt("%s on device %d of %d (song event), note of device %d", o.kind == 0 ? "note-on" : o.kind == 1 ? "CC7" : o.kind == 2 ? "CC11" : "master-volume SysEx", o.dev + 1, ndev, (int)j + 1).c_str());
+            judged++;
+            if(master >= 0) { q.st.push_back(q.cc7); q.st.push_back(q.cc11); q.st.push_back(master); q.tl.insert(q.tl.end(), k.tl, k.tl + 4); }
+        }
+        k.cch = -1;
+    }
+    if(lost || next != ops.size()) { c.inconclusive = true; count("multidev_events_not_attributable"); return; }
+    // monotone in each control with the others fixed, within one note and across the devices (same instrument, same velocity)
+    int reported = 0;
+    for(size_t a = 0; a < notes.size(); a++) for(size_t b = 0; b < notes.size(); b++)
+    {
+        const MvNote &A = notes[a], &B = notes[b];
+        for(size_t i = 0; i * 3 < A.st.size(); i++) for(size_t j = 0; j * 3 < B.st.size(); j++)
+        {
+            int le = 0, eq = 0;
+            for(int x = 0; x < 3; x++) { if(A.st[i * 3 + (size_t)x] == B.st[j * 3 + (size_t)x]) eq++; else if(A.st[i * 3 + (size_t)x] < B.st[j * 3 + (size_t)x]) le++; }
+            if(eq + le != 3) continue;        // A's controls <= B's controls, componentwise
+            for(int sl = 0; sl < 4; sl++)
+            {
+                if(!is_carrier_slot(alg, sl)) continue;
+                uint8_t ta = A.tl[i * 4 + (size_t)sl], tb = B.tl[j * 4 + (size_t)sl];
+                if(tb > ta && reported++ < 4)
+                    c.violation(vfmt("oracle:C11:carrier-tl-not-monotone:%s:model-%s", a == b ? "song-events" : "across-devices", MODEL_NAME[model]),
+                                vfmt("carrier slot %d (operator %d, alg %d, own TL %u), velocity %d: note of device %zu with cc7=%d cc11=%d master=%d has TL %u, note of device %zu with cc7=%d cc11=%d master=%d has TL %u (%d devices)",
+                                     sl, slot_op(sl), alg, own[sl], vel, a + 1, A.st[i * 3], A.st[i * 3 + 1], A.st[i * 3 + 2], ta, b + 1, B.st[j * 3], B.st[j * 3 + 1], B.st[j * 3 + 2], tb, ndev));
+            }
+            count("multidev_state_pairs_compared");
+        }
+    }
+    count("multidev_states_judged", judged);
+    c.nontrivial = judged >= 6;
+    cover(vfmt("multidev|model%d|alg%d|dev%d|%s", model, alg, ndev, same_channel ? "same-channel-number" : "other-channels"));
+    c.sig = vfmt("md|%d|%d", model, alg);
+    c.sample(vfmt("{\"stage\":\"multidev\",\"model\":\"%s\",\"alg\":%d,\"devices\":%d,\"operations\":%zu,\"states_judged\":%ld,\"file_bytes\":%zu}", MODEL_NAME[model], alg, ndev, ops.size(), judged, file.size()));
+}
+
 static void run_case(Case &c)
 {
+    if(g_w.stage == "multidev") { stage_multidev(c); return; }
     if(g_w.stage == "arp") { stage_arp(c); return; }
     if(g_w.stage == "config") stage_config(c);
     else stage_cube(c);
